@@ -4,7 +4,8 @@
    aggregates, whole results are invariant.  Chunking and each engine's dtype conversion are invisible in a
    list-of-rows model: they are covered only by the cross-backend differential (C02_chunking_partial). *)
 From Coq Require Import Reals String List Lra Permutation.
-From TT Require Import lib.PreludeR lib.Stats genR.Aggr genR.Mean proofs.C14_pooling proofs.C12_agree proofs.C02_invariance.
+From TT Require Import lib.PreludeR lib.Stats lib.Plan lib.PlanSem model.ReadPlan genR.Aggr genR.Mean proofs.C14_pooling proofs.C12_agree
+  proofs.C02_invariance proofs.C01_denote proofs.C02_plan_perm.
 Import ListNotations.
 Local Open Scope R_scope.
 
@@ -30,6 +31,18 @@ Proof. exact (analysis_reads_only_declared fam cfg c c' t t'). Qed.
 Example C02_nonvacuous : Permutation [(fun _ : string => 1); (fun _ => 2)] [(fun _ : string => 2); (fun _ => 1)].
 Proof. apply perm_swap. Qed.
 
+(* at the level of the query plans: evaluating any builder's plan on a table and on any reordering of its rows gives, for
+   every variant, result rows with the same count, means, variances and covariances (with C01: for every builder, so the
+   three builders - and hence the backends they serve - agree with one another as well) *)
+Theorem C02_plan_result_independent_of_row_order q g tbl tbl' wc rep rep' o o' : Permutation tbl tbl' ->
+  same_group g rep rep' = true -> exact_for_gen q g tbl wc rep o -> exact_for_gen q g tbl' wc rep' o' ->
+  (wc = true -> o a_count = o' a_count) /\
+  (forall c, In c (r_mean q) -> o (a_mean c) = o' (a_mean c)) /\
+  (forall c, In c (r_var q) -> o (a_var c) = o' (a_var c)) /\
+  (forall p, In p (r_cov q) -> o (a_cov p) = o' (a_cov p)).
+Proof. intros Hp. exact (exact_rows_agree q g tbl tbl' Hp wc rep rep' o o'). Qed.
+
 Print Assumptions C02_row_order_irrelevant.
 Print Assumptions C02_unrelated_columns_irrelevant.
 Print Assumptions C02_results_depend_on_statistics_only.
+Print Assumptions C02_plan_result_independent_of_row_order.
